@@ -190,6 +190,7 @@ def corrupt(tr, rng):
 
 
 def run(ctx):
+    ctx.liveness("Tdc", unfair_control=not ctx.quick)      # termination under weak fairness (Tdc_live.cfg)
     rng = np.random.default_rng(ctx.seed)
     # ---------------- (M) ----------------
     if ctx.quick:
